@@ -5,6 +5,7 @@ covering the sample, clipped to 0..255.
 -/
 import H263V.Lemmas.IdctErr
 import H263V.Lemmas.ReconSpec
+import H263V.Lemmas.DecodeTotal
 namespace H263V.Lemmas.SampleErr
 open H263V H263V.Idct H263V.Rle H263V.Spec.AnnexA H263V.Lemmas.F32Range H263V.Lemmas.IdctSpec H263V.Lemmas.ReconSpec
 open H263V.Lemmas.RlePlacement
@@ -68,6 +69,17 @@ def idealVal (levels : Array Dct) (bpl spl size : Nat) (k : Nat) (old : Nat) : N
 
 /-- every stored block has entries of magnitude at most 2048 (what dequantisation and INTRADC reconstruction produce: C11) -/
 def AllBounded (levels : Array Dct) : Prop := ∀ (i : Nat) (d : Dct), levels[i]? = some d → Dct.Bounded d
+
+/-- the invariant the totality proof (C01) maintains for the level arrays of the macroblock loop implies `AllBounded` -/
+theorem allBounded_of_levels (n : Nat) (a : Array Dct) (h : DecodeTotal.Levels n a) : AllBounded a := by
+  intro i d hd
+  have hi : i < a.size := by
+    rcases Nat.lt_or_ge i a.size with h1 | h1
+    · exact h1
+    · rw [Array.getElem?_eq_none h1] at hd; cases hd
+  rw [Array.getElem?_eq_getElem hi] at hd
+  cases hd
+  exact h.2 i hi
 
 /-- **one sample of one plane**: decoder's value within one of the ideal reconstruction over the same prediction -/
 theorem idctVal_close (levels : Array Dct) (hb : AllBounded levels) (bpl spl size k old : Nat) :
